@@ -22,8 +22,9 @@ import (
 )
 
 type c03Layer struct {
-	Size int `json:"size"`
-	Seed int `json:"seed"`
+	Size int  `json:"size"`
+	Seed int  `json:"seed"`
+	Big  bool `json:"big,omitempty"` // 100 MB (the downloader's minimum part size) + Size bytes: a real multi-part layout
 }
 
 type c03Part struct {
@@ -55,7 +56,33 @@ var (
 	c03Cancel = []time.Duration{0, time.Nanosecond, 50 * time.Millisecond, 500 * time.Millisecond, 5 * time.Second, 40 * time.Second}
 )
 
+const c03MinPart = 100 * 1000 * 1000 // download.go: minDownloadPartSize
+
+var c03BigCache = map[c03Layer][]byte{}
+
 func c03Data(l c03Layer) []byte {
+	if l.Big {
+		if b, ok := c03BigCache[l]; ok {
+			return b
+		}
+		// cheap to build, yet no two 4 KiB blocks are equal (a shifted or repeated range changes the hash)
+		b := make([]byte, c03MinPart+l.Size)
+		for i := 0; i < len(b); i += 4096 {
+			blk := b[i:min(len(b), i+4096)]
+			for j := range blk {
+				blk[j] = byte(j*7 + l.Seed)
+			}
+			n := uint32(i/4096)*2654435761 + uint32(l.Seed)
+			for j := 0; j < 4 && j < len(blk); j++ {
+				blk[j] = byte(n >> (8 * j))
+			}
+		}
+		if len(c03BigCache) > 3 {
+			clear(c03BigCache)
+		}
+		c03BigCache[l] = b
+		return b
+	}
 	b := make([]byte, l.Size)
 	x := uint32(l.Seed)*2654435761 + 12345
 	for i := range b {
@@ -69,10 +96,25 @@ func c03GenLayer(t *rapid.T) c03Layer {
 	return c03Layer{Size: rapid.SampledFrom(c03Sizes).Draw(t, "size"), Seed: rapid.IntRange(0, 3).Draw(t, "seed")}
 }
 
+// c03Coin is a fair n-fold coin (rapid's integer draws over-weight range bounds, so IntRange(0,k)==0 is not 1/(k+1)).
+func c03Coin(t *rapid.T, n int, label string) bool {
+	for i := 0; i < n; i++ {
+		if !rapid.Bool().Draw(t, label) {
+			return false
+		}
+	}
+	return true
+}
+
 func c03Gen(t *rapid.T) c03Case {
 	var c c03Case
 	c.Name = rapid.IntRange(0, len(c03Names)-1).Draw(t, "name")
 	c.Layers = rapid.SliceOfN(rapid.Custom(c03GenLayer), 1, 4).Draw(t, "layers")
+	// rarely one layer is larger than the downloader's minimum part size, so that Prepare itself lays out several parts
+	if n := map[string]int{"quick": 8, "thorough": 6}[vfkit.Tier()]; c03Coin(t, max(n, 6), "big") {
+		c.Layers[0].Big = true
+		c.Layers[0].Size = rapid.SampledFrom([]int{1, 4096, 70000}).Draw(t, "big_extra")
+	}
 	c.ConfigSize = rapid.SampledFrom([]int{-1, 2, 50, 300}).Draw(t, "config")
 	c.Prior = rapid.SampledFrom([]int{0, 0, 1, 2, 2}).Draw(t, "prior")
 	if c.Prior == 1 {
@@ -344,6 +386,11 @@ func c03Run(t *testing.T, c c03Case, rec *vfkit.Recorder) (info c03Info, err err
 			synctest.Wait()
 		}
 	})
+	for _, l := range c.Layers {
+		if l.Big {
+			cls["layer_over_100MB_multi_part_layout"] = true
+		}
+	}
 	reg.mu.Lock()
 	used := append([]string{}, reg.used...)
 	reg.mu.Unlock()
